@@ -497,4 +497,35 @@ def rule_names(ctx):
             ctx.add("NAMES", "outline-indices:%s" % t, "{i}" in t and "{j}" in t, ctx.site(ae, n), "outline problem names carry both enumerate() indices")
 
 
-RULES = [rule_flow_mono, rule_status_tables, rule_once, rule_bytes, rule_flow_err, rule_names]
+WORKER_TABLE = {
+    ("<verifying::prover::vampire::Vampire as verifying::prover::Prover>::prove", "unwrap"): (1, "child.stdin.take() on a child just spawned with Stdio::piped() is Some"),
+    ("verifying::prover::Prover::prove_all", "unwrap"): (1, "tx.send(result) fails only when the receiving iterator was dropped, i.e. nobody consumes reports any more"),
+    ("<verifying::prover::STATUS as std::ops::Deref>::deref::__static_ref_initialize", "unwrap"): (1, "Regex::new on a constant expression"),
+    ("<verifying::prover::vampire::Vampire as verifying::prover::Prover>::instances", "assert:DivisionByZero"): (1, "cores() is num_cpus::get() (>= 1) or the non-zero field"),
+}
+
+
+def rule_worker_panics(ctx):
+    """A prover run that panics inside a pool worker sends no report at all: the consumer's flag is then never cleared for that problem.
+    Every panic site in the prover module (the code a worker executes) must be in the table above, with its invariant."""
+    from .. import callgraph
+    from . import c16
+    fx = ctx.facts
+    cg = callgraph.CallGraph(fx)
+    sites, where, n_reach, _ = c16.collect_sites(fx, cg)
+    n = 0
+    for (fn, kind), cnt in sorted(sites.items()):
+        if "verifying::prover" not in fn:
+            continue
+        n += 1
+        ent = WORKER_TABLE.get((fn, kind))
+        f, l = where[(fn, kind)]
+        if ent is None:
+            ctx.bad("FLOW-MONO", "worker-panic:%s|%s" % (hq.last(fn, 2), kind), "%s:%s" % (f, l),
+                    "%d panic site(s) of kind `%s` in %s: a panic in a pool worker drops that problem's report, and the remaining reports can still say success" % (cnt, kind, fn))
+        else:
+            ctx.add("FLOW-MONO", "worker-panic:%s|%s" % (hq.last(fn, 2), kind), cnt <= ent[0], "%s:%s" % (f, l), "%d site(s) (table %d): %s" % (cnt, ent[0], ent[1]))
+    ctx.floor("FLOW-MONO", "worker-panic-sites", n, 4)
+
+
+RULES = [rule_flow_mono, rule_status_tables, rule_once, rule_bytes, rule_flow_err, rule_names, rule_worker_panics]
